@@ -545,7 +545,18 @@ func (g *c20Gen) doSubmit(d *c20DID, rq *c20Req, advance func()) {
 	if rq.Type != operation.TypeCreate {
 		pre = w.resolve(d.shortDID())
 	}
+	// now and then the operation queue refuses the operation: the handler answers with an error and the request must
+	// leave no trace (for the model this is a request refused at intake)
+	// (not for a re-submission of a request that is still pending: the handler's compensation deletes by request, so
+	// what happens to the pending copy depends on the caller's unpublished store - outside the property)
+	if g.rng.Intn(10) == 0 && !strings.HasPrefix(rq.Label, "duplicate") && rq.Type != operation.TypeCreate {
+		w.queue.failNext = true
+		rq.IntakeOK = false
+		rq.Label += ":queue-refuses"
+		g.r.Count("injected", "operation-queue-refuses")
+	}
 	res, err := w.submit(rq)
+	w.queue.failNext = false
 	g.nSubmit++
 	// (iv) the decorator, on the implementation alone: what ResolveDocument showed just before decides
 	if rq.Type != operation.TypeCreate && pre.Err == "" {
